@@ -114,8 +114,15 @@ def _observe(source, target, tb, fb, items):
         ut = [j for i, j, _ in items if i is None]
         budget = 3000
         c.mon("match.no_unpaired_overlapping_couple")
+        # (the budget goes to couples that can overlap at all: time extents within six buffers of one another -- a buffered
+        # outline reaches at most five buffers, the mitre limit, beyond the geometry)
+        bs = {i: geoms.ref_bounds(ss[i]) for i in us}
+        bt = {j: geoms.ref_bounds(ts[j]) for j in ut}
+        reach_t = 6 * tb + 1e-9
         for i in us:
             for j in ut:
+                if bs[i][0] - reach_t > bt[j][2] + reach_t or bt[j][0] - reach_t > bs[i][2] + reach_t:
+                    continue
                 if budget <= 0:
                     break
                 budget -= 1
